@@ -3,6 +3,7 @@
 // freshly constructed objects (C09) or with a reference computed from the interpolated curve
 // itself (C08). Real code: libphysica::Interpolation, Interpolation_2D. No stubs.
 #include "../sim/sim.hpp"
+#include "../sim/preempt.hpp"
 
 #include <algorithm>
 #include <memory>
@@ -51,9 +52,12 @@ enum Probe
 	P_SWAP,
 	P_ZERO_PREF,
 	P_EXCURSION,
+	P_CONC,
+	P_CONC_POINTS,
+	P_CONC_SWITCHES,
 	P_NPROBES
 };
-const char* PROBE_NAMES[] = {"locate_hunt_up", "locate_hunt_down", "locate_bisection", "locate_same_segment", "locate_extrapolation_zone", "query_at_knot", "query_at_knot_while_correlated", "query_at_nextafter_of_knot", "copy_construct", "assign_into_object_of_other_table", "self_assign", "copy_then_destroy_original", "prefactor_negative_set", "prefactor_tiny_or_huge_set", "extremum_query_spanning_3plus_knots", "extremum_or_integral_limit_in_extrapolation_zone", "integral_spanning_many_pieces", "integral_reversed_limits", "query_under_prefactor_not_1", "query_under_negative_prefactor", "run_is_2d", "oracle_comparisons", "bit_exact_comparisons", "tolerance_comparisons_at_knots", "sweep_ops", "table_200_or_more_points", "comparisons_with_a_pristine_process", "same_argument_asked_of_another_table_first", "move_assignment", "swap_of_two_objects", "query_under_zero_prefactor", "prefactor_excursion_to_1e+-150..290_and_back"};
+const char* PROBE_NAMES[] = {"locate_hunt_up", "locate_hunt_down", "locate_bisection", "locate_same_segment", "locate_extrapolation_zone", "query_at_knot", "query_at_knot_while_correlated", "query_at_nextafter_of_knot", "copy_construct", "assign_into_object_of_other_table", "self_assign", "copy_then_destroy_original", "prefactor_negative_set", "prefactor_tiny_or_huge_set", "extremum_query_spanning_3plus_knots", "extremum_or_integral_limit_in_extrapolation_zone", "integral_spanning_many_pieces", "integral_reversed_limits", "query_under_prefactor_not_1", "query_under_negative_prefactor", "run_is_2d", "oracle_comparisons", "bit_exact_comparisons", "tolerance_comparisons_at_knots", "sweep_ops", "table_200_or_more_points", "comparisons_with_a_pristine_process", "same_argument_asked_of_another_table_first", "move_assignment", "swap_of_two_objects", "query_under_zero_prefactor", "prefactor_excursion_to_1e+-150..290_and_back", "pairs_of_query_sequences_run_on_two_threads_at_once", "scheduling_points_(static_storage_accesses)_inside_paired_calls", "preemptions_inside_paired_calls"};
 
 enum Metric
 {
@@ -219,7 +223,7 @@ double apply_hist(const std::vector<std::pair<int, double>>& h)
 	return p;
 }
 
-const std::vector<std::string> OPKINDS = {"interp", "call", "deriv", "integ", "lmin", "lmax", "gmin", "gmax", "locate", "setpref", "mul", "copy", "sweep", "xprobe"};
+const std::vector<std::string> OPKINDS = {"interp", "call", "deriv", "integ", "lmin", "lmax", "gmin", "gmax", "locate", "setpref", "mul", "copy", "sweep", "xprobe", "conc"};
 int kind_id(const std::string& k)
 {
 	for(size_t i = 0; i < OPKINDS.size(); i++)
@@ -351,6 +355,53 @@ struct Exec
 		out = r.value;
 		ctx.probe(P_PRISTINE);
 		return true;
+	}
+
+	// Two callers inside the library at once, each with an object of its own (two fresh copies of the slot's table and prefactor):
+	// each thread puts its own sequence of queries to its own object under the pre-emptive scheduler of sim/preempt.cpp; the
+	// answers must be those the same sequences give when run one after the other on two more fresh copies.
+	void exec_conc(const Op& o, Slot& s)
+	{
+		// i: slot, schedule mode, schedule argument, schedule seed, query kind of thread A, of thread B ; d: points of A then of B
+		if(tab.two_d || o.i.size() < 6 || o.d.size() < 2)
+			return;
+		int mode = (int) o.i[1], qa = (int) o.i[4], qb = (int) o.i[5];
+		uint64_t arg = (uint64_t) std::max(1ll, o.i[2]);
+		size_t half = o.d.size() / 2;
+		for(double x : o.d)
+			if(!arg_valid(tab.xs, x))
+				return;
+		auto run = [&](Interpolation& F, int q, size_t from, std::vector<double>& out) {
+			for(size_t k = from; k + 1 < from + half; k++)
+			{
+				double a = o.d[k], b = o.d[k + 1];
+				switch(q)
+				{
+					case 0: out.push_back(F.Interpolate(a)); break;
+					case 1: out.push_back(F.Derivative(a, 1 + (unsigned) (k % 3))); break;
+					case 2: out.push_back(F.Integrate(a, b)); break;
+					case 3: out.push_back(std::min(a, b) < std::max(a, b) ? F.Local_Minimum(std::min(a, b), std::max(a, b)) : 0.0); break;
+					case 4: out.push_back(std::min(a, b) < std::max(a, b) ? F.Local_Maximum(std::min(a, b), std::max(a, b)) : 0.0); break;
+					default: out.push_back((double) F.Locate(a)); break;
+				}
+			}
+		};
+		Interpolation A1 = fresh1(s, 1), B1 = fresh1(s, 1), A2 = fresh1(s, 1), B2 = fresh1(s, 1);
+		std::vector<double> a1, b1, a2, b2;
+		run(A1, qa, 0, a1);
+		run(B1, qb, half, b1);
+		sim::preempt::Stats st = sim::preempt::run_pair([&] { run(A2, qa, 0, a2); }, [&] { run(B2, qb, half, b2); }, (uint64_t) o.i[3], mode, arg);
+		ctx.probe(P_CONC);
+		ctx.probe(P_CONC_POINTS, st.points);
+		ctx.probe(P_CONC_SWITCHES, st.switches);
+		ctx.log.u64(a2.size() + b2.size());
+		for(int w = 0; w < 2; w++)
+		{
+			const std::vector<double>&x = w ? b1 : a1, &y = w ? b2 : a2;
+			for(size_t k = 0; k < x.size() && k < y.size(); k++)
+				if(!same_bits(x[k], y[k]))
+					ctx.violate("C09:concurrent-callers", fmt("query #%zu (kind %d) on an object of its own returns %.17g while another thread is inside the library with ANOTHER object, and %.17g when the same sequence is run alone; %llu scheduling points, %llu pre-emptions", k, w ? qb : qa, y[k], x[k], (unsigned long long) st.points, (unsigned long long) st.switches) + where(o));
+		}
 	}
 
 	void exec_xprobe(const Op& o, Slot& s)
@@ -1291,6 +1342,8 @@ struct Exec
 				exec_sweep(o, s);
 			else if(kid == 13)
 				exec_xprobe(o, s);
+			else if(kid == 14)
+				exec_conc(o, s);
 			else if(tab.two_d)
 				exec_query_2d(o, s, kid);
 			else
@@ -1580,6 +1633,7 @@ struct Gen
 	{
 		Rng& r = plan_rng;
 		Plan p;
+		double conc_frac = atof(opts.get("conc_frac", "0.004").c_str());
 		bool two_d = r.chance(0.22);
 		bool small = r.chance(0.15);
 		Table tab  = make_table(r, two_d, small);
@@ -1749,7 +1803,15 @@ struct Gen
 			if(two_d && cat == 2)
 				cat = 3;
 			Op o;
-			if(cat == 0 && !c08 && r.chance(0.05))
+			if(!two_d && !c08 && r.chance(conc_frac))
+			{
+				int mode = (int) r.below(3);
+				o		 = Op("conc", {c.slot, mode, mode == 0 ? (long long) r.irange(1, 4) : mode == 1 ? (long long) r.pick(std::vector<long long>{8, 30, 200, 2000}) : (long long) r.pick(std::vector<long long>{2, 5, 20}), (long long) (r.next() & 0xffffffffu), (long long) r.below(6), (long long) r.below(6)});
+				int n	 = 2 * (int) r.pick(std::vector<long long>{2, 4, 10, 30});
+				for(int q = 0; q < n; q++)
+					o.d.push_back(next_point(r, c, tab.xs, c.cursor));
+			}
+			else if(cat == 0 && !c08 && r.chance(0.05))
 			{
 				// a query that is also put to a fresh object in a pristine PROCESS (and, just before, to an object on another table)
 				double x = next_point(r, c, tab.xs, c.cursor);
